@@ -27,15 +27,25 @@ InOs(a) == a < Len(OsFlat)
 \* initial memory of the run whose header is record h: dense segments over a fill word.  A `light`
 \* header (replayed behaviours: thousands of short runs) carries no segments: the machine is a new
 \* Known-strategy simulator, whose memory NewOK prescribes (and checks on every ordinary header).
-TraceBaseRd(h, a) ==
-  IF "light" \in DOMAIN Rec[h]
-  THEN IF InOs(a) THEN (IF OsFlat[a + 1] >= 0 THEN W(OsFlat[a + 1], 65535) ELSE W(Rec[h].fill[1], 0))
-       ELSE IF a >= 65024 THEN W(0, 65535) ELSE WP(Rec[h].fill)
+\* A base is a header record number h, or h + InitStep * k after a reset that followed a change of the
+\* initialization strategy to Known{FillTab[k]} (flags are edited on a live simulator; reset builds the
+\* new machine for the CURRENT flags): memory is then what NewOK prescribes for that fill value.
+BaseH(b) == b % InitStep
+BaseK(b) == b \div InitStep
+TraceBaseRd(b, a) ==
+  LET h == BaseH(b)  k == BaseK(b)
+      fillw == IF k = 0 THEN WP(Rec[h].fill) ELSE W(FillTab[k], 0)
+  IN
+  IF "pattern" \in DOMAIN Rec[h]      \* an adversarial machine of MC_Machine (replay machine): the pattern and the instruction word at the PC
+  THEN IF a = Rec[h].poke[1] THEN W(Rec[h].poke[2], 65535) ELSE PatRd(Rec[h].pattern, a)
+  ELSE IF "light" \in DOMAIN Rec[h] \/ k # 0
+  THEN IF InOs(a) THEN (IF OsFlat[a + 1] >= 0 THEN W(OsFlat[a + 1], 65535) ELSE W(fillw.v, 0))
+       ELSE IF a >= 65024 THEN W(0, 65535) ELSE fillw
   ELSE
   LET segs == Rec[h].segs
-      hit  == { k \in 1..Len(segs) : segs[k].s <= a /\ a < segs[k].s + Len(segs[k].w) }
+      hit  == { j \in 1..Len(segs) : segs[j].s <= a /\ a < segs[j].s + Len(segs[j].w) }
   IN IF hit = {} THEN WP(Rec[h].fill)
-     ELSE LET k == CHOOSE k \in hit : TRUE IN WP(segs[k].w[a - segs[k].s + 1])
+     ELSE LET j == CHOOSE j \in hit : TRUE IN WP(segs[j].w[a - segs[j].s + 1])
 
 VARIABLES l, st, why
 vars == <<l, st, why>>
@@ -57,7 +67,7 @@ FromHeader(h) ==
    icount |-> p.icount, obs |-> <<>>, kbd |-> p.kbd, disp |-> p.disp,
    devs |-> [i \in 1..Len(r.devs) |-> DevOf(r.devs[i])], ports |-> PairsFn(r.ports),
    ireg |-> PairsFn(r.ireg), flags |-> FlagsOf(r.flags), alloca |-> AllocaSeq(r.alloca),
-   srdefs |-> <<>>, base |-> h, bps |-> {}, pause |-> "Unsuccessful", devn |-> {}, drift |-> FALSE, nrej |-> 0, mark |-> [reg |-> <<>>, psr |-> 0, pc |-> 0, kbd |-> <<>>, disp |-> <<>>, memw |-> <<>>, ssp |-> NoW]]
+   srdefs |-> <<>>, base |-> h, initk |-> 0, bps |-> {}, pause |-> "Unsuccessful", devn |-> {}, drift |-> FALSE, nrej |-> 0, mark |-> [reg |-> <<>>, psr |-> 0, pc |-> 0, kbd |-> <<>>, disp |-> <<>>, memw |-> <<>>, ssp |-> NoW]]
 
 ---------------------------------------------------------------------------
 \* comparison of the specification state with a logged projection
@@ -125,7 +135,13 @@ NewOK(h) ==
 
 \* Simulator::reset: a new machine with the same flags; flags, MCR handle,
 \* internal-register map and device table are kept and the devices io_reset.
-ResetTo(s, draws) == ResetOf(s, FromHeader(s.base), draws)
+\* the new machine reset builds: that of the header, or the Known{FillTab[k]} machine if the strategy was changed
+FreshFor(s) ==
+  LET k == IF s.initk # 0 THEN s.initk ELSE BaseK(s.base)
+      f == FromHeader(BaseH(s.base))
+  IN IF k = 0 THEN f
+     ELSE [f EXCEPT !.base = BaseH(s.base) + InitStep * k, !.initk = s.initk, !.reg = [i \in 1..8 |-> W(FillTab[k], 0)]]
+ResetTo(s, draws) == ResetOf(s, FreshFor(s), draws)
 ResetDrawsOK(s, draws) == \A j \in 1..Len(s.devs) : s.devs[j].k = "timer" =>
                              draws[s.devs[j].slot] >= s.devs[j].lo /\ draws[s.devs[j].slot] <= s.devs[j].hi
 
@@ -169,6 +185,7 @@ ApplyHost(s0, r) ==
     [] r.op = "setpc"  -> ok([s EXCEPT !.pc = r.v])
     [] r.op = "keys"   -> ok([s EXCEPT !.kbd = @ \o r.bytes])
     [] r.op = "flag"   -> ok([s EXCEPT !.flags = FlagsOf(r.flags)])
+    [] r.op = "setinit" -> ok([s EXCEPT !.initk = r.k])
     [] r.op = "clearicount" -> ok([s EXCEPT !.icount = 0])
     [] r.op = "srdef"  -> ok([s EXCEPT !.srdefs = (r.addr :> [some |-> TRUE, cc |-> B(r.cc), n |-> r.n, regs |-> r.regs]) @@ @])
     [] r.op \in {"mmap", "munmap", "adddev", "rmdev", "rmem", "wmem"} -> DevOp(s, r)
@@ -240,7 +257,10 @@ Resync(pre, post, p) ==
                               LET d == post.devs[j] IN
                               IF d.k = "timer" THEN [d EXCEPT !.time = p.timers[d.slot], !.en = B(p.timer_en[d.slot])]
                               ELSE IF d.k = "kbd" /\ j = 2 THEN [d EXCEPT !.ie = B(p.kbdie)] ELSE d],
-                  !.memw = [a \in (DOMAIN pre.memw) \cup diffA |-> IF a \in diffA THEN dval(a) ELSE pre.memw[a]],
+                  \* (a diff of tens of thousands of words - a reset into another fill value - is not copied: the
+                  \* specification's own memory is kept, the comparison above has already reported the difference)
+                  !.memw = IF Len(p.memdiff) > 2000 THEN post.memw
+                           ELSE [a \in (DOMAIN pre.memw) \cup diffA |-> IF a \in diffA THEN dval(a) ELSE pre.memw[a]],
                   !.dirty = <<>>, !.drift = TRUE, !.nrej = pre.nrej + 1]
 
 \* (at most MaxRejected rejected events per run are followed up: a badly broken implementation must
